@@ -211,4 +211,43 @@ def classGRPCOK (r : GrpcResp) (o : Outcome) : Bool :=
   (r.code != 0 || o == .ok r.partialReported) &&
   throttleHonoursHint (hintGRPC r) o
 
+/-! ### slow collector (requests accepted, never answered) and the client timeout -/
+
+/-- how an export against a slow collector ended, as an API user sees it -/
+inductive SlowRes where
+  | ok
+  /-- one of the two max-retry-time errors -/
+  | gaveUp
+  /-- an error wrapping the context's deadline error (gRPC: the client timeout spans the whole export) -/
+  | deadline
+  | otherErr
+  /-- the call had not returned long after every bound had passed (observation only) -/
+  | stuck
+deriving DecidableEq, Repr
+
+/-- "gives up with an error once the configured maximum elapsed time would be exceeded …, never blocks beyond that" for
+the collector outcome `slow response`, with a client timeout `> 0` configured by ANY source and the client assembled
+by ANY construction path. `k = some k`: the first `k` requests are never answered, the next one is answered 200
+(retry without elapsed-time limit); `k = none`: no request is ever answered (`MaxElapsedTime ≠ 0`).
+HTTP: the timeout bounds each attempt, so the slow attempts are abandoned and retried — delivered after exactly
+`k + 1` requests, or given up with a max-retry-time error. gRPC: the timeout bounds the whole export — it ends with
+the deadline error. Never `stuck`, never a success nobody acknowledged, never a request past the acknowledged one.
+(`n` = requests that REACHED the collector: an attempt that times out while the connection is still being set up is not
+counted, so no lower bound on `n` is part of the oracle.) -/
+def slowOK (grpc : Bool) (k : Option Nat) (res : SlowRes) (n : Nat) : Bool :=
+  res != .stuck &&
+  (if grpc then res == .deadline
+   else match k with
+     | some k => res == .ok && n == k + 1
+     | none => res == .gaveUp)
+
+/-- what a `Run` of the model amounts to for an API user -/
+def slowResOf : Result → SlowRes
+  | .returned (.ok _) => .ok
+  | .returned _ => .otherErr
+  | .maxElapsed => .gaveUp
+  | .wouldElapse => .gaveUp
+  | .cancelled => .deadline
+  | .pending => .stuck
+
 end Otel.C14.Spec
